@@ -1320,13 +1320,20 @@ package ast
 
 
 // Expression.GetSnapshot: the format is pinned (tags SE( EL( ER( EA(, the negation mark, one spelling per operator)
-//@ pure func opSym(op int) string { return ite(op == OpMul, "*", ite(op == OpDiv, "/", ite(op == OpMod, "%", ite(op == OpAdd, "+", ite(op == OpSub, "-", ite(op == OpBitAnd, "&", ite(op == OpBitOr, "|",
+//@ macro func opSym(op int) string { return ite(op == OpMul, "*", ite(op == OpDiv, "/", ite(op == OpMod, "%", ite(op == OpAdd, "+", ite(op == OpSub, "-", ite(op == OpBitAnd, "&", ite(op == OpBitOr, "|",
 //@      ite(op == OpGT, ">", ite(op == OpLT, "<", ite(op == OpGTE, ">=", ite(op == OpLTE, "<=", ite(op == OpEq, "==", ite(op == OpNEq, "!=", ite(op == OpAnd, "&&", ite(op == OpOr, "||", ""))))))))))))))) }
-// (the format clauses of Expression.GetSnapshot - tags SE( EL( ER( EA(, negation mark, operator spelling - do not discharge
-// without a string theory once the builder's value passes through three joins; the function stays an ASSUMED deterministic
-// function of the node, see DESIGN)
-//@ extern func (e *Expression) GetSnapshot() (s)
-//@   isfunc
+// The builder's value is followed through the joins as an ite-tree (opt strite), so the format is checked without a string
+// theory. A-STABLE (trusted_ensures): a node's snapshot is a function of the node - the fields that feed it are final when
+// it is first taken (the listener's filing discipline, checked in package antlr, covers the negation flags).
+//@ func (e *Expression) GetSnapshot() (s)
+//@   serves C07
+//@   opt strite=1
+//@   requires e != nil
 //@   nopanic
+//@   modifies
+//@   trusted_ensures s == fn_GetSnapshot_0(e)
+//@   checks[C07] format: s == "E(" + ite(e.SingleExpression != nil, "SE(" + ite(e.Negated, "!", "") + fn_GetSnapshot_0(e.SingleExpression) + ")", "")
+//@        + ite(e.LeftExpression != nil && e.RightExpression != nil, "EL(" + fn_GetSnapshot_0(e.LeftExpression) + ")" + opSym(e.Operator) + "ER(" + fn_GetSnapshot_0(e.RightExpression) + ")", "")
+//@        + ite(e.ExpressionAtom != nil, "EA(" + fn_GetSnapshot_0(e.ExpressionAtom) + ")", "") + ")"
 // the 15 operator spellings are pairwise different and none is a prefix of "ER(" (LL(1) disjointness, ground)
 //@ lemma[C07] opsym_injective: forall a int, b int :: 0 <= a && a <= 14 && 0 <= b && b <= 14 && opSym(a) == opSym(b) ==> a == b
